@@ -61,17 +61,6 @@ def determineNK (periodic : Bool × Bool × Bool) (nkdiv nkfft nk : Option Idx) 
 
 /-! ### which grids are accepted -/
 
-/-- `PointGroup.symmetric_grid(nk)`: every symmetry maps the lattice `b_i / nk_i` to itself, i.e. in reduced
-    coordinates `M_ij * nk_j / nk_i` is an integer for all i, j (the sign from inversion / time reversal is irrelevant) -/
-def symmetricGrid (syms : List Sym) (n : Idx) : Bool :=
-  syms.all fun s =>
-    decide ((s.m11 * n.1) % (n.1 : Int) = 0) && decide ((s.m12 * n.2.1) % (n.1 : Int) = 0) &&
-    decide ((s.m13 * n.2.2) % (n.1 : Int) = 0) &&
-    decide ((s.m21 * n.1) % (n.2.1 : Int) = 0) && decide ((s.m22 * n.2.1) % (n.2.1 : Int) = 0) &&
-    decide ((s.m23 * n.2.2) % (n.2.1 : Int) = 0) &&
-    decide ((s.m31 * n.1) % (n.2.2 : Int) = 0) && decide ((s.m32 * n.2.1) % (n.2.2 : Int) = 0) &&
-    decide ((s.m33 * n.2.2) % (n.2.2 : Int) = 0)
-
 /-- the acceptance rule of `determineNK`: EACH of the grids that the caller specifies (NKdiv, NKFFT, NK) must be
     symmetric on its own - a symmetric total grid `NKdiv * NKFFT` is not enough -/
 def acceptNK (syms : List Sym) (nkdiv nkfft nk : Option Idx) : Bool :=
